@@ -21,25 +21,37 @@ Inductive prog :=
 | PLoop (body : prog)
 | PBreak
 | PCont
-| PRet.
+| PRet
+| PCalls (fs : list nat).   (* any number of calls of functions of the table named in fs, each in an environment of its own *)
 
 Inductive out := ONormal | OBreak | OCont | ORet.
 
-Inductive pexec : prog -> env * heap -> out -> env * heap -> Prop :=
-| PX_skip : forall s, pexec PSkip s ONormal s
-| PX_stmt : forall st s s', cstep s st s' -> pexec (PStmt st) s ONormal s'
-| PX_seq : forall p q s s1 s2 o, pexec p s ONormal s1 -> pexec q s1 o s2 -> pexec (PSeq p q) s o s2
-| PX_seq_exit : forall p q s s1 o, o <> ONormal -> pexec p s o s1 -> pexec (PSeq p q) s o s1
-| PX_if_l : forall p q s o s', pexec p s o s' -> pexec (PIf p q) s o s'
-| PX_if_r : forall p q s o s', pexec q s o s' -> pexec (PIf p q) s o s'
-| PX_loop_done : forall b s, pexec (PLoop b) s ONormal s
+(* funs: the bodies of the functions that can be called.  A callee starts in ANY environment (whatever the
+   arguments are) on the caller's heap; when it is done the caller goes on with its own environment and the heap
+   the callee left - or stops as well, if the callee raised. *)
+Inductive pexec (funs : list prog) : prog -> env * heap -> out -> env * heap -> Prop :=
+| PX_skip : forall s, pexec funs PSkip s ONormal s
+| PX_stmt : forall st s s', cstep s st s' -> pexec funs (PStmt st) s ONormal s'
+| PX_seq : forall p q s s1 s2 o, pexec funs p s ONormal s1 -> pexec funs q s1 o s2 -> pexec funs (PSeq p q) s o s2
+| PX_seq_exit : forall p q s s1 o, o <> ONormal -> pexec funs p s o s1 -> pexec funs (PSeq p q) s o s1
+| PX_if_l : forall p q s o s', pexec funs p s o s' -> pexec funs (PIf p q) s o s'
+| PX_if_r : forall p q s o s', pexec funs q s o s' -> pexec funs (PIf p q) s o s'
+| PX_loop_done : forall b s, pexec funs (PLoop b) s ONormal s
 | PX_loop_iter : forall b s s1 s2 o o',
-    pexec b s o s1 -> o = ONormal \/ o = OCont -> pexec (PLoop b) s1 o' s2 -> pexec (PLoop b) s o' s2
-| PX_loop_break : forall b s s1, pexec b s OBreak s1 -> pexec (PLoop b) s ONormal s1
-| PX_loop_ret : forall b s s1, pexec b s ORet s1 -> pexec (PLoop b) s ORet s1
-| PX_break : forall s, pexec PBreak s OBreak s
-| PX_cont : forall s, pexec PCont s OCont s
-| PX_ret : forall s, pexec PRet s ORet s.
+    pexec funs b s o s1 -> o = ONormal \/ o = OCont -> pexec funs (PLoop b) s1 o' s2 -> pexec funs (PLoop b) s o' s2
+| PX_loop_break : forall b s s1, pexec funs b s OBreak s1 -> pexec funs (PLoop b) s ONormal s1
+| PX_loop_ret : forall b s s1, pexec funs b s ORet s1 -> pexec funs (PLoop b) s ORet s1
+| PX_break : forall s, pexec funs PBreak s OBreak s
+| PX_cont : forall s, pexec funs PCont s OCont s
+| PX_ret : forall s, pexec funs PRet s ORet s
+| PX_calls_done : forall fs s, pexec funs (PCalls fs) s ONormal s
+| PX_calls_step : forall fs f body e h ec oc ec' h' o h'',
+    In f fs -> nth_error funs f = Some body -> pexec funs body (ec, h) oc (ec', h') ->
+    pexec funs (PCalls fs) (e, h') o (e, h'') ->
+    pexec funs (PCalls fs) (e, h) o (e, h'')
+| PX_calls_raise : forall fs f body e h ec ec' h',
+    In f fs -> nth_error funs f = Some body -> pexec funs body (ec, h) ORet (ec', h') ->
+    pexec funs (PCalls fs) (e, h) ORet (e, h').
 
 (* ---------- the static check ---------- *)
 (* abstract states a program can leave in, per way of leaving *)
@@ -126,9 +138,21 @@ Fixpoint acheck (p : prog) (a : astate) : option ares :=
   | PBreak => Some {| r_norm := []; r_brk := [a]; r_cont := [] |}
   | PCont => Some {| r_norm := []; r_brk := []; r_cont := [a] |}
   | PRet => Some ares_empty
+  | PCalls _ => Some {| r_norm := [a]; r_brk := []; r_cont := [] |}    (* the callees are checked on their own *)
   end.
 
 Definition safe_prog (p : prog) : bool :=
   match acheck p init_astate with Some _ => true | None => false end.
+
+(* a table of functions: every body passes the check, and every call names a function of the table *)
+Fixpoint calls_below (n : nat) (p : prog) : bool :=
+  match p with
+  | PCalls fs => forallb (fun f => Nat.ltb f n) fs
+  | PSeq p q | PIf p q => calls_below n p && calls_below n q
+  | PLoop b => calls_below n b
+  | _ => true
+  end.
+Definition safe_table (funs : list prog) : bool :=
+  forallb (fun p => safe_prog p && calls_below (List.length funs) p) funs.
 
 Definition pseq (l : list prog) : prog := fold_right PSeq PSkip l.
